@@ -895,7 +895,14 @@ class FortranReaderBase:
                 self.reader = FortranFileReader(
                     path, include_dirs=include_dirs, ignore_comments=ignore_comments
                 )
-                result = self.reader.next(ignore_comments=ignore_comments)
+                try:
+                    result = self.reader.next(ignore_comments=ignore_comments)
+                except StopIteration:
+                    # The included file holds no item at all (it is empty or
+                    # has nothing but comments that are being ignored):
+                    # carry on with the line after the INCLUDE line.
+                    self.reader = None
+                    return self.next(ignore_comments=ignore_comments)
                 return result
             return item
         except StopIteration:
